@@ -12,6 +12,8 @@ PYTHONPATH=/repo/modules PYTHONHASHSEED=0 PYTHONDONTWRITEBYTECODE=1 PYTHONWARNIN
 /venv/bin/python harness/extract_dispatch.py coq/Gen/Dispatch.v
 /venv/bin/python harness/extract_clean.py coq/Gen/CleanGen.v
 /venv/bin/python harness/extract_readers.py coq/Gen/Readers.v
+/venv/bin/python harness/extract_datastream.py coq/Gen/DataStreamGen.v
+/venv/bin/python harness/extract_sections.py coq/Gen/Sections.v
 PYTHONPATH=/repo/modules PYTHONHASHSEED=0 PYTHONDONTWRITEBYTECODE=1 PYTHONWARNINGS=ignore \
   /venv/bin/python harness/extract_regexes.py coq/Gen/Regexes.v
 cd coq
